@@ -135,6 +135,18 @@ func (x *Run) callFunc(fr *Frame, st *State, fn *ssa.Function, args []Val, bindi
 			mode := ModeNormal
 			if fr.inPure() {
 				mode = ModePure
+			} else {
+				st.events = append(st.events, Event{Name: "call:" + fn.String(), Args: args})
+				idx := len(st.events) - 1
+				outs := x.runFunc(fn, args, bindings, st, fr, mode)
+				for i := range outs {
+					if !outs[i].panic && idx < len(outs[i].st.events) {
+						ev := append([]Event(nil), outs[i].st.events...)
+						ev[idx].Ret = outs[i].ret
+						outs[i].st.events = ev
+					}
+				}
+				return outs
 			}
 			return x.runFunc(fn, args, bindings, st, fr, mode)
 		}
@@ -145,6 +157,12 @@ func (x *Run) callFunc(fr *Frame, st *State, fn *ssa.Function, args []Val, bindi
 		x.mu.Unlock()
 		x.applyHavoc(st, ms)
 		return single(st, x.freshResults(st, fn.Signature.Results()))
+	}
+	// --- deterministic library functions: uninterpreted function of the arguments ---
+	if x.spec.detExt(fn) {
+		ret := x.ufApply(st, "ext."+x.fnShort(fn), args, fn.Signature.Results())
+		st.events = append(st.events, Event{Name: "call:" + fn.String(), Args: args, Ret: ret})
+		return single(st, ret)
 	}
 	// --- opaque external ---
 	return x.opaqueExternal(fr, st, fn, args, site)
@@ -157,6 +175,19 @@ func (fr *Frame) inPure() bool {
 		}
 		if f.selfRun {
 			return false
+		}
+	}
+	return false
+}
+
+// inSpec: executing contract-function code itself (not the code under contract).
+func (fr *Frame) inSpec() bool {
+	for f := fr; f != nil; f = f.parent {
+		if f.selfRun {
+			return false
+		}
+		if f.mode == ModeContractVerify {
+			return true
 		}
 	}
 	return false
@@ -237,8 +268,9 @@ func (x *Run) opaqueExternal(fr *Frame, st *State, fn *ssa.Function, args []Val,
 			x.havocPointee(st, a)
 		}
 	}
-	st.events = append(st.events, Event{Name: "call:" + fn.String(), Args: args})
-	return single(st, x.freshResults(st, fn.Signature.Results()))
+	ret := x.freshResults(st, fn.Signature.Results())
+	st.events = append(st.events, Event{Name: "call:" + fn.String(), Args: args, Ret: ret})
+	return single(st, ret)
 }
 
 func (x *Run) havocPointee(st *State, a Val) {
@@ -312,11 +344,12 @@ func (x *Run) invoke(fr *Frame, st *State, recv Val, cc *ssa.CallCommon, args []
 	x.mu.Lock()
 	x.opaque["external-iface:"+full] = true
 	x.mu.Unlock()
-	st.events = append(st.events, Event{Name: "invoke:" + full, Args: all})
 	for _, a := range args {
 		x.havocPointee(st, a)
 	}
-	return single(st, x.freshResults(st, cc.Signature().Results()))
+	iret := x.freshResults(st, cc.Signature().Results())
+	st.events = append(st.events, Event{Name: "invoke:" + full, Args: all, Ret: iret})
+	return single(st, iret)
 }
 
 // ---------- builtins ----------
